@@ -17,9 +17,11 @@
 
 static std::atomic<long> g_live_arrays{0};
 static long g_base_arrays = 0;   // array allocations that are not covfie's (e.g. the ifstream buffer), sampled before each behaviour
+#ifndef VF_NO_INTERPOSE   // (the valgrind configuration uses valgrind's own allocation tracking instead)
 void * operator new[](std::size_t n) { void * p = std::malloc(n ? n : 1); if (!p) throw std::bad_alloc(); ++g_live_arrays; return p; }
 void operator delete[](void * p) noexcept { if (p) { --g_live_arrays; std::free(p); } }
 void operator delete[](void * p, std::size_t) noexcept { if (p) { --g_live_arrays; std::free(p); } }
+#endif
 
 using namespace vf;
 namespace cb = covfie::backend;
@@ -185,7 +187,8 @@ static void compare(const json & after, const json & ctx, const std::string & op
             }
         }, g_slots[s]);
     }
-    if (!unspec) expect_eq("lifecycle/live-storage-blocks/" + op, (long)g_live_arrays.load() - g_base_arrays, after["blocks"].get<long>(), ctx);
+    static const bool count_blocks = std::getenv("VF_NO_BLOCKCOUNT") == nullptr;   // valgrind replaces the allocation functions itself
+    if (!unspec && count_blocks) expect_eq("lifecycle/live-storage-blocks/" + op, (long)g_live_arrays.load() - g_base_arrays, after["blocks"].get<long>(), ctx);
 }
 
 int main(int argc, char ** argv) {
@@ -214,7 +217,7 @@ int main(int argc, char ** argv) {
                 ++steps;
             }
             g_slots.clear();
-            expect_eq("lifecycle/leak-at-end", (long)g_live_arrays.load() - g_base_arrays, 0L, {{"history", ops}});
+            if (std::getenv("VF_NO_BLOCKCOUNT") == nullptr) expect_eq("lifecycle/leak-at-end", (long)g_live_arrays.load() - g_base_arrays, 0L, {{"history", ops}});
         }
         summary({{"steps", steps}});
     }
